@@ -337,6 +337,7 @@ var kindTable = map[string]kindInfo{
 	"store": {"ok", "U"}, "storeval": {"ok", "U"}, "nest": {"ok", "U"}, "nestok": {"ok", "U"}, "nestinv": {"ok", "U"},
 	"clear": {"ok", "U"}, "send": {"ok", "U"}, "ecall": {"ok", "U"},
 	"xfer": {"ok", "other"}, "energy": {"ok", "other"}, "sd": {"ok", "other"}, "sdself": {"ok", "other"}, "create": {"ok", "nil"},
+	"sdben": {"ok", "other"}, "nest3sd": {"ok", "U"}, "diesd": {"errkeep", "other"},
 	"revert": {"errkeep", "U"}, "nestdie": {"errkeep", "U"}, "xferfail": {"errkeep", "other"}, "createfail": {"errkeep", "nil"},
 	"invalid": {"errall", "U"}, "oog": {"errall", "U"},
 }
@@ -442,6 +443,43 @@ func (w *world) compile(kind string, i int) compiled {
 				delete(d, akey(addrU3))
 				return ev, tr
 			}}
+	case "sdben":
+		// an energy-holding contract self-destructs to the BLOCK BENEFICIARY, which was already touched in this block (its
+		// energy is read without growth): a later failing clause must take the energy back from it
+		return compiled{tx.NewClause(&addrU3).WithData(sim.UCall(sim.OpDestroy, sim.AddrWord(w.B()))),
+			func(d dump, _ thor.Bytes32, _ int) (int, int) {
+				u, ok := d[akey(addrU3)]
+				if !ok || u.Code == "" {
+					return 0, 0
+				}
+				r := d.get(w.B())
+				ev, tr := 0, 0
+				if u.Energy.Sign() != 0 {
+					ev = 1
+				}
+				if u.Bal.Sign() != 0 {
+					tr = 1
+				}
+				r.Bal.Add(r.Bal, u.Bal)
+				r.Energy.Add(r.Energy, u.Energy)
+				delete(d, akey(addrU3))
+				return ev, tr
+			}}
+	case "nest3sd":
+		// U1 -> U2 (stores, calls U3 which self-destructs to the beneficiary, then REVERTs) -> back in U1, which goes on:
+		// the self-destruct happened inside a reverting INNER frame, the tx succeeds; only U1's two writes remain
+		bw := sim.AddrWord(w.B())
+		return compiled{tx.NewClause(&addrU1).WithData(sim.UCall(sim.OpNest3, bw, word(v), sim.AddrWord(addrU2), word(sim.OpNestDie),
+			sim.AddrWord(addrU3), word(sim.OpDestroy))),
+			func(d dump, _ thor.Bytes32, _ int) (int, int) {
+				k0 := thor.BytesToBytes32(bw.Bytes())
+				k1 := thor.BytesToBytes32(new(big.Int).Add(bw, big.NewInt(1)).Bytes())
+				d.get(addrU1).Storage[skey(k0)] = rawStorage(v)
+				d.get(addrU1).Storage[skey(k1)] = rawStorage(v)
+				return 0, 0
+			}}
+	case "diesd": // U2 stores, calls U3 (self-destruct to the beneficiary), then REVERTs: the clause fails after the destruct
+		return compiled{tx.NewClause(&addrU2).WithData(sim.UCall(sim.OpNestDie, sim.AddrWord(w.B()), word(v), sim.AddrWord(addrU3), word(sim.OpDestroy))), nil}
 	case "sdself": // finding F3: the value and the contract's own balance and energy vanish with the account
 		return compiled{tx.NewClause(&addrSDS).WithValue(val),
 			func(d dump, _ thor.Bytes32, _ int) (int, int) {
@@ -495,6 +533,8 @@ func (w *world) applyFacts(st *state.State, f facts, origin thor.Address) {
 		// far below any prepaid amount, but enough for the "ecall" clause kind (the contract forwards ~1000 wei)
 		must(st.SetEnergy(addrU1, big.NewInt(1_000_000), blockTime))
 	}
+	// the block beneficiary has already been touched in this block (as after an earlier tx's reward)
+	must(st.SetEnergy(w.B(), big.NewInt(123_456_789), blockTime))
 	b := builtin.Prototype.Native(st).Bind(addrU1)
 	if f.CreditGE {
 		must(b.SetCreditPlan(new(big.Int).Mul(big.NewInt(1000), e18), big.NewInt(1)))
@@ -916,8 +956,11 @@ func packerRuns(seed int64, evs *[]trace.Ev) (runs int) {
 				"noenergy": mk(poor, 100_000, store(5), ""),
 				"lowgas":   mk(n.Devs[4].PrivateKey, 21_000, store(6), ""), // below intrinsic (21000 + data gas)
 				"badsig":   mk(n.Devs[4].PrivateKey, 100_000, store(7), "badsig"),
+				// passes every static check and the gas purchase, then the runtime ABORTS (execution error, not a VM error):
+				// a read-only frame reaches the energy builtin's state-changing native method
+				"execabort": mk(n.Devs[5].PrivateKey, 200_000, tx.NewClause(&addrU1).WithData(sim.UCall(sim.OpStatic, sim.AddrWord(addrR), word(1000))), ""),
 			}
-			names := []string{"noenergy", "lowgas", "badsig"}
+			names := []string{"noenergy", "lowgas", "badsig", "execabort"}
 			who := round % 2
 			pack := func(offer []*tx.Transaction) (thor.Bytes32, thor.Bytes32, []string, uint64, []uint64, uint64, []map[string]any) {
 				acc := n.Devs[who]
